@@ -44,12 +44,19 @@ def _alarm(signum, frame):
 
 @contextlib.contextmanager
 def time_limit(seconds):
+    """limit = `seconds` of CPU time of this process (ITIMER_PROF), so that the
+    verdict does not depend on how busy the machine is; a wall-clock backstop of
+    30 x seconds catches code that blocks without using the CPU"""
     old = signal.signal(signal.SIGALRM, _alarm)
-    signal.setitimer(signal.ITIMER_REAL, seconds)
+    oldp = signal.signal(signal.SIGPROF, _alarm)
+    signal.setitimer(signal.ITIMER_PROF, seconds)
+    signal.setitimer(signal.ITIMER_REAL, seconds * 30)
     try:
         yield
     finally:
+        signal.setitimer(signal.ITIMER_PROF, 0)
         signal.setitimer(signal.ITIMER_REAL, 0)
+        signal.signal(signal.SIGPROF, oldp)
         signal.signal(signal.SIGALRM, old)
 
 
